@@ -49,7 +49,7 @@ def _table():
     return dict(ch.KNOWN_HASHES), ch.MAX_KNOWN_HASH_HEIGHT
 
 
-def gate(h: int, twin: bool = False, real: bool = False):
+def gate(h: int, head_above_horizon: bool = False, twin: bool = False, real: bool = False):
     table, mx = _table()
     W = World(real=real, h=max(h, 2))
     # the real gate, not the harness default
@@ -69,6 +69,13 @@ def gate(h: int, twin: bool = False, real: bool = False):
         pre = W.state([5, 6, 7, 8])
         cb = W.env.coinbase(W.h, [dt.Output(1, W.keys[3])], tok(TX, 20))
         block = W.candidate(pre, [cb], 3000, bid=idb)
+        if head_above_horizon:
+            # the node is fully synced: its served head lies above the last checkpoint
+            top = W.env.block(mx + 5, tok(BLK, 60), [W.env.coinbase(mx + 5, [dt.Output(1, W.keys[3])], tok(TX, 61))], tok(BLK, 61))
+            pre = W.env.cstate.CoinState(pre.block_by_hash.set(top.hash(), top),
+                                         pre.unspent_transaction_outs_by_hash.set(top.hash(), W.env.mk_map([])),
+                                         pre.block_by_height_by_hash.set(top.hash(), W.env.mk_map([(mx + 5, top)])),
+                                         pre.heads.set(top.hash(), top), top.hash())
         try:
             W.cons.validate_block_in_coinstate(block, pre)
             accepted = True
@@ -179,6 +186,12 @@ def recorded_blocks(with_fork_head: bool = False):
                           [dt.Transaction([dt.Input(dt.OutputReference(b"\x00" * 32, 0), env.sg.CoinbaseData(5, b"fork"))],
                                           [dt.Output(1, blocks[0].transactions[0].outputs[0].public_key)])])
             cs = cs.add_block_no_validation(f4).add_block_no_validation(f5)
+            # ... and the node has worked on that branch (evidence computed for it), as a miner or validator would
+            try:
+                cons.construct_pow_evidence(cs, f5.header.summary, 5, f5.transactions)
+                cons.construct_pow_evidence(cs, f4.header.summary, 4, f4.transactions)
+            except Exception:
+                pass
             fork_added = True
         try:
             cs = cs.add_block(b, b.timestamp)
@@ -209,7 +222,10 @@ def obligations(tier: str, known: List[str]) -> List[Ob]:
         if h < 2:
             continue        # genesis has no parent to be "otherwise valid" against; its id is pinned by the anchor
         obs.append(Ob("gate[h=%d]" % h, C_GATE, "gate", {"h": h}, timeout=300))
-    obs.append(twin_of(obs[-1]))
+    for h in (hs[-1], hs[len(hs) // 2]) if len(hs) > 1 else hs:
+        if h >= 2:
+            obs.append(Ob("gate[h=%d,served-head-above-horizon]" % h, C_GATE, "gate", {"h": h, "head_above_horizon": True}, timeout=300))
+    obs.append(twin_of([o for o in obs if o.name.startswith("gate[h=%d]" % hs[-1])][0]))
     obs.append(Ob("above-horizon[h=max+1]", C_GATE, "above_horizon", {}, timeout=600))
     obs.append(twin_of(obs[-1]))
     obs.append(Ob("table-shape", C_GATE, "table_shape", {}, kind="anchor"))
